@@ -313,6 +313,28 @@ pub fn cmd_vec(args: &[String]) -> i32 {
     let skip: usize = arg(args, "--skip").and_then(|s| s.parse().ok()).unwrap_or(0);
     let mark = arg(args, "--mark");
     let mut index = 0usize;
+    // Watchdog: one vector that keeps the function busy for more than 20 s is a verdict
+    // (the property says "terminates"): record which one and stop with status 4.
+    let current = std::sync::Arc::new(std::sync::atomic::AtomicUsize::new(0));
+    {
+        let current = current.clone();
+        let markpath = format!("{}.mark", outp);
+        std::thread::spawn(move || {
+            let mut last = 0usize;
+            let mut since = std::time::Instant::now();
+            loop {
+                std::thread::sleep(std::time::Duration::from_millis(500));
+                let now = current.load(std::sync::atomic::Ordering::Relaxed);
+                if now != last {
+                    last = now;
+                    since = std::time::Instant::now();
+                } else if now != 0 && since.elapsed().as_secs() >= 20 {
+                    let _ = std::fs::write(&markpath, format!("{}", now));
+                    std::process::exit(4);
+                }
+            }
+        });
+    }
     for line in f.lines() {
         let line = line.expect("read");
         if line.trim().is_empty() {
@@ -329,6 +351,7 @@ pub fn cmd_vec(args: &[String]) -> i32 {
         if index <= skip {
             continue;
         }
+        current.store(index, std::sync::atomic::Ordering::Relaxed);
         if let Some(m) = &mark {
             let _ = std::fs::write(m, format!("{}", index));
         }
